@@ -195,7 +195,7 @@ PROPS = {
                              search=[('awsops', ['-n', 20000]), ('hist', ['-n', 1500, '-scans', 12, '-focus', 'up']), ('hist', ['-n', 32, '-scans', 6, '-focus', 'up', '-slow']), ('fleetops', ['-n', 300]), ('hist', ['-n', 40, '-scans', 8, '-focus', 'fleet'])]),
                 aspects=['hist:untaints', 'hist:resize', 'hist:gets', 'hist:pre', 'cached-desired', 'journal'], monitors=['C07'],
                 theorems=['Esc.P.C07_order', 'Esc.P.C07_remainder', 'Esc.P.C07_on_top', 'Esc.untaintLoop_spec', 'Esc.P.tryDelete_desired', 'Esc.orderBy_pairwise',
-                          'Esc.P.runOnce_fresh', 'Esc.P.C07_fresh_history', 'Esc.P.C07_on_top_of_reported'],
+                          'Esc.P.runOnce_fresh', 'Esc.P.C07_fresh_history', 'Esc.P.C07_on_top_of_reported', 'Esc.P.C07_source_remainder', 'Esc.P.gen_scaleUp_remainder_eq', 'Esc.P.gen_scaleUp_translation_complete'],
                 technique='Lean 4 theorem (untaint loop attempts a newest-first prefix; count/remainder accounting of ScaleUp; exact SetDesiredCapacity value on the cached desired size, which follows accepted terminations) + differential correspondence incl. the provider cache after multi-node deletions + monitors',
                 level_text='C07_order: any tainted node not attempted is not strictly newer than an attempted one (all tie-breaks, all failing writes); C07_remainder: reported untaints <= N, the cloud is asked only if every tainted node was attempted, and then for the remainder N - untainted clamped to the bound, >= 1; '
                            'C07_on_top + tryDelete_desired: SetDesiredCapacity = cached desired + amount, the cached desired having been decremented once per accepted termination of the same scan. Tie: hist (up-focused: tainted nodes + high load + force removals) and awsops (cached desired after DeleteNodes); '
@@ -272,7 +272,7 @@ PROPS = {
                              thorough=[('fleetops', ['-n', 3200]), ('hist', ['-n', 200, '-scans', 8, '-focus', 'fleet']), ('hist', ['-n', 600, '-scans', 10, '-focus', 'fleetfail'])],
                              search=[('fleetops', ['-n', 400]), ('hist', ['-n', 40, '-scans', 8, '-focus', 'fleet']), ('hist', ['-n', 80, '-scans', 8, '-focus', 'fleetfail'])]),
                 aspects=['journal', 'outcome'], monitors=['C18'],
-                theorems=['Esc.P.C18_no_leak', 'Esc.P.C18_error_reported', 'Esc.P.C18_no_lock', 'Esc.P.attachChunks_flatten', 'Esc.P.termChunks_flatten'],
+                theorems=['Esc.P.C18_no_leak', 'Esc.P.C18_error_reported', 'Esc.P.C18_no_lock', 'Esc.P.attachChunks_flatten', 'Esc.P.termChunks_flatten', 'Esc.P.C18_source_lock_only_on_success', 'Esc.P.gen_scaleUp_translation_complete'],
                 technique='Lean 4 theorem over the model of attachInstancesToASG/terminateOrphanedInstances (permutation argument over batches, all failure points) + differential correspondence with fault injection at every call + monitor',
                 level_text='C18_no_leak: for every fleet size, readiness outcome and failing call, attached ++ submitted-for-termination is a permutation of the acquired ids (never both, never neither), every TerminateInstances call carries '
                            '<= terminateBatchSize ids, and success is reported only when nothing was terminated; C18_no_lock: a failed increase leaves the scale lock untouched. Tie: fleetops stream (real provider, 1 s ticker, fleets up to 2500, failure sequences up to the third strike) + monitor; controller level: fleet-mode histories with the monitor "a cool-down starts only in a scan in which the cloud accepted an increase".',
@@ -394,6 +394,8 @@ GLOBAL_ASPECTS = {'outcome'}
 
 # Round 3: what the regenerated ties (Tie B, DESIGN.md section 0 "Round 3") add to each claim. Appended to the level text.
 SOURCE_NOTES = {
+    'C07': 'Tie B (scale_up.go ScaleUp, as translated with its two callees as parameters): C07_source_remainder — scaleUpCloudProviderNodeGroup is called iff untainting reported no error and left a positive remainder, and is handed exactly want - untainted; gen_scaleUp_remainder_eq: that is the remainder the model computes.',
+    'C18': 'Tie B (scale_up.go ScaleUp): C18_source_lock_only_on_success — the cool-down lock is taken iff the cloud was asked and reported no error, with the number it reported; on an error ScaleUp returns it and takes no lock.',
     'C01': 'Tie B (regenerated from scale_down.go and taint.go on every run): gen_reaperCands_eq / gen_forceCands_eq — the loop bodies of the two reapers, as translated from the source, select exactly the model\'s candidates; C01_source_reaper: a candidate is handed on only if unprotected, its time readable, not dry, age > soft and (empty or age > hard); gen_taintTime_eq / C01_source_taint_time: a time is returned only for a parsable value within the years 1-9999.',
     'C02': 'Tie B (scale_lock.go): gen_lockLocked_eq / gen_lockUnlock_eq / gen_lockLock_eq — the three methods, as translated (unlock() spliced into locked()), are the model\'s; C02_source_lock: inside the cool-down locked() says yes and changes nothing, once it has elapsed it says no and leaves the lock released.',
     'C03': 'Tie B (scale_down.go): gen_taintClamp_eq; C03_source_clamp — the translated head of scaleDownTaint taints min(asked, untainted - min_nodes) and refuses iff fewer than min_nodes are untainted.',
